@@ -19,6 +19,7 @@ STATE = "anstyle_parse::state::definitions::State"
 
 class Scanner:
     def __init__(self, facts, name):
+        self.facts = facts
         self.body = facts.body(CRATE, MOD + name)
         self.name = name
         b = self.body
@@ -208,8 +209,86 @@ def phase_of(sc, frames):
     return "closure?"
 
 
-def _atoms_for(sc, clo, path):
-    """Classify atoms of this path: returns (kind(atom_expr) -> 'P'|'C'|None, canonical text)."""
+CONT = frozenset(range(0x80, 0xc0))
+ASCII_WS = frozenset({0x09, 0x0a, 0x0c, 0x0d, 0x20})
+
+
+def byte_pred(e, bname, facts, depth=0):
+    """True-set (⊆ 0..=255) of a pure predicate over the byte `bname`, or None if the expression is something else."""
+    if depth > 6:
+        return None
+    e = hir.simp(e)
+    k = e.get("k")
+    if k == "lit" and e.get("t") == "bool":
+        return frozenset(range(256)) if e["v"] else frozenset()
+    if k == "un" and e.get("op") == "Not" and "callee" not in e:
+        s = byte_pred(e["e"], bname, facts, depth + 1)
+        return None if s is None else frozenset(range(256)) - s
+    if k == "bin" and "callee" not in e:
+        op = e["op"]
+        if op in ("And", "Or"):
+            a, b = byte_pred(e["l"], bname, facts, depth + 1), byte_pred(e["r"], bname, facts, depth + 1)
+            if a is None or b is None:
+                return None
+            return a & b if op == "And" else a | b
+        if op in ("Eq", "Ne", "Lt", "Le", "Gt", "Ge"):
+            l, r = hir.simp(e["l"]), hir.simp(e["r"])
+            flip = {"Lt": "Gt", "Le": "Ge", "Gt": "Lt", "Ge": "Le", "Eq": "Eq", "Ne": "Ne"}
+            if hir.is_local(r, bname) and r.get("k") == "local" and hir.lit_val(l) is not None:
+                l, r, op = r, l, flip[op]
+            if hir.is_local(l, bname) and isinstance(hir.lit_val(r), int):
+                c = hir.lit_val(r)
+                f = {"Eq": lambda x: x == c, "Ne": lambda x: x != c, "Lt": lambda x: x < c, "Le": lambda x: x <= c,
+                     "Gt": lambda x: x > c, "Ge": lambda x: x >= c}[op]
+                return frozenset(x for x in range(256) if f(x))
+            lm = hir.simp(l)
+            if lm.get("k") == "bin" and lm.get("op") == "BitAnd" and hir.is_local(lm["l"], bname) and isinstance(hir.lit_val(lm["r"]), int) \
+                    and isinstance(hir.lit_val(r), int) and op in ("Eq", "Ne"):
+                m, c = hir.lit_val(lm["r"]), hir.lit_val(r)
+                return frozenset(x for x in range(256) if ((x & m) == c) == (op == "Eq"))
+        return None
+    if k == "match" and hir.is_local(e["scrut"], bname):
+        out = set()
+        rest = set(range(256))
+        for a in e["arms"]:
+            try:
+                ints = hir.pat_ints(a["pat"])
+            except Unrecognised:
+                return None
+            v = hir.lit_val(a["body"])
+            if not isinstance(v, bool) or "guard" in a:
+                return None
+            hit = rest if ints is None else (rest & ints)
+            if v:
+                out |= hit
+            rest -= hit
+        return frozenset(out)
+    if k == "call" and len(e["args"]) == 1 and hir.is_local(e["args"][0], bname):
+        cal = hir.callee(e)
+        std = {"core::num::<impl u8>::is_ascii": frozenset(range(128)),
+               "core::num::<impl u8>::is_ascii_whitespace": ASCII_WS,
+               "core::num::<impl u8>::is_ascii_control": frozenset(range(32)) | {127},
+               "core::num::<impl u8>::is_ascii_graphic": frozenset(range(0x21, 0x7f)),
+               "core::num::<impl u8>::is_ascii_digit": frozenset(range(0x30, 0x3a))}
+        if cal in std:
+            return std[cal]
+        if facts is not None and cal.startswith("anstream::"):
+            try:
+                b = facts.body("anstream", cal)
+            except Exception:
+                return None
+            if len(b["params"]) == 1 and b["params"][0].get("k") == "pbind" and b.get("sig", "").startswith("fn(u8) -> bool"):
+                body = hir.simp(b["hir"])
+                while body.get("k") == "block" and not body.get("stmts") and "expr" in body:
+                    body = hir.simp(body["expr"])
+                return byte_pred(body, b["params"][0]["name"], facts, depth + 1)
+        return None
+    return None
+
+
+def _atoms_for(sc, clo, path, facts=None):
+    """Classifier for the atoms of one path: 'P' (printability of this byte under the table), 'P?' (printability of
+    something else), ('B', set) (a pure predicate over the byte), or None (anything else, e.g. a state test)."""
     b = clo["params"][0]["name"]
     lets = {}
     for t in path.trace:
@@ -232,8 +311,9 @@ def _atoms_for(sc, clo, path):
                 if pos == 1 and hir.is_call(init, "anstyle_parse::state::state_change") and hir.is_local(init["args"][1], b):
                     return "P"
             return "P?"
-        if hir.is_call(e, MOD + "is_utf8_continuation") and hir.is_local(e["args"][0], b):
-            return "C"
+        s = byte_pred(e, b, facts)
+        if s is not None:
+            return ("B", s)
         return None
 
     return kind
@@ -244,7 +324,7 @@ def _assignments(atoms_txt):
         yield dict(zip(atoms_txt, vals))
 
 
-def analyse_closure(sc, clo):
+def analyse_closure(sc, clo, facts=None):
     """For each path of a position-closure: the set of truth assignments (over its atoms) under which the closure
     returns false (= the scan goes on), with the classification of atoms."""
     out = []
@@ -253,7 +333,7 @@ def analyse_closure(sc, clo):
             continue
         if p.exit not in ("value", "ret") or p.value is None:
             raise Unrecognised(f"{sc.name}: closure path without a boolean result")
-        kind = _atoms_for(sc, clo, p)
+        kind = _atoms_for(sc, clo, p, facts if facts is not None else getattr(sc, 'facts', None))
         conds = [(t[1], t[2]) for t in p.trace if t[0] == "cond"]
         arms = [t for t in p.trace if t[0] == "arm"]
         if arms:
@@ -284,6 +364,25 @@ def cond_sig(conds):
     return ("" if v else "!") + hirpp.expr(c).replace(STATE + "::", "State::")
 
 
+def byte_set_of(asg, info):
+    """Bytes consistent with the truth values this assignment gives to the pure byte predicates of the path."""
+    bs = frozenset(range(256))
+    for a in info["names"]:
+        k = info["kinds"][a]
+        if isinstance(k, tuple) and k[0] == "B":
+            bs &= k[1] if asg[a] else (frozenset(range(256)) - k[1])
+    return bs
+
+
+def kept_is_justified(asg, info):
+    """A kept byte is justified by a true table-printability test on it, or by byte tests that confine it to the UTF-8
+    continuation range 0x80..=0xbf."""
+    if any(asg[a] and info["kinds"][a] == "P" for a in info["names"]):
+        return True
+    bs = byte_set_of(asg, info)
+    return bool(bs) and bs <= CONT
+
+
 def rule_S3(sc, rep):
     """take phase: a byte is kept (closure returns false) only after a true printability/continuation test on it."""
     b = sc.body
@@ -292,14 +391,18 @@ def rule_S3(sc, rep):
         n += 1
         bad = []
         for asg in info["go_on"]:
-            tested = any(asg[a] and info["kinds"][a] in ("P", "C") for a in info["names"])
-            if not tested:
+            if not byte_set_of(asg, info):
+                continue   # contradictory byte tests: infeasible
+            if not kept_is_justified(asg, info):
                 bad.append(asg)
         sig = cond_sig(info["conds"])
-        rep.check(not bad, "S3", b["path"], f"take:{sig}",
-                  "S3 every-kept-byte-is-classified: on this path the take phase keeps the byte although neither "
-                  "is_printable_bytes(action, b) (action from the table for the carried state) nor is_utf8_continuation(b) "
-                  "was found true for it" if bad else "kept only under a true printability/continuation test",
+        detail = "kept only under a true printability/continuation test"
+        if bad:
+            bs = sorted(byte_set_of(bad[0], info))
+            detail = ("S3 every-kept-byte-is-classified: on this path the take phase keeps the byte although is_printable_bytes(action, b) "
+                      "(action from the table for the carried state) was not found true for it and the byte is not confined to UTF-8 "
+                      f"continuation bytes (possible bytes {bs[0]:#04x}..={bs[-1]:#04x}, {len(bs)} values)")
+        rep.check(not bad, "S3", b["path"], f"take:{sig}", detail,
                   loc(b, info["path"].value if isinstance(info["path"].value, dict) else sc.take))
         q = [a for a in info["names"] if info["kinds"][a] == "P?"]
         if q:
